@@ -454,18 +454,19 @@ void ares_search(ares_channel_t *channel, const char *name, int dnsclass,
     return;
   }
 
+  ares_channel_lock(channel);
   rd_flag      = !(channel->flags & ARES_FLAG_NORECURSE) ? ARES_FLAG_RD : 0;
   max_udp_size = (channel->flags & ARES_FLAG_EDNS) ? channel->ednspsz : 0;
   status       = ares_dns_record_create_query(
     &dnsrec, name, (ares_dns_class_t)dnsclass, (ares_dns_rec_type_t)type, 0,
     rd_flag, max_udp_size);
   if (status != ARES_SUCCESS) {
+    ares_channel_unlock(channel);
     callback(arg, (int)status, 0, NULL, 0);
     ares_free(carg);
     return;
   }
 
-  ares_channel_lock(channel);
   ares_search_int(channel, dnsrec, ares_dnsrec_convert_cb, carg);
   ares_channel_unlock(channel);
 
